@@ -783,15 +783,41 @@ pub const LONG_CHAIN_CASES: [&str; 3] = [
 
 pub fn long_chain_driver(prop: &'static str) -> impl Fn(&crate::engine::RunCtx, &mut Stats, &mut crate::engine::Reporter) {
     move |_ctx, stats, rep| {
+        // Each case runs on its own thread under a time limit: a library defect in this area tends to show up as an
+        // endless loop, and a hang must become "inconclusive" quickly instead of stalling the whole run.
         let cases: Vec<Value> = LONG_CHAIN_CASES.iter().map(|t| serde_json::from_str(t).unwrap()).collect();
-        let cases = &cases;
-        crate::engine::par_chunks(cases.len() as u64, stats, rep, |range, st, fails| {
-            for i in range {
-                let c = &cases[i as usize];
-                if let Err(f) = crate::engine::guarded(prop, "long_chain", long_chain_check, c, st) {
-                    fails.push((c.clone(), f));
+        let (tx, rx) = std::sync::mpsc::channel();
+        for (i, c) in cases.iter().enumerate() {
+            let tx = tx.clone();
+            let c = c.clone();
+            std::thread::Builder::new()
+                .stack_size(64 << 20)
+                .spawn(move || {
+                    let mut st = Stats::default();
+                    let r = crate::engine::guarded(prop, "long_chain", long_chain_check, &c, &mut st);
+                    let _ = tx.send((i, st, r));
+                })
+                .unwrap();
+        }
+        let mut done = vec![false; cases.len()];
+        let deadline = std::time::Instant::now() + std::time::Duration::from_secs(120);
+        for _ in 0..cases.len() {
+            let left = deadline.saturating_duration_since(std::time::Instant::now());
+            match rx.recv_timeout(left) {
+                Ok((i, st, r)) => {
+                    done[i] = true;
+                    stats.merge(st);
+                    if let Err(f) = r {
+                        rep(cases[i].clone(), f);
+                    }
                 }
+                Err(_) => break,
             }
-        });
+        }
+        for (i, d) in done.iter().enumerate() {
+            if !d {
+                rep(cases[i].clone(), crate::engine::Failure::new("harness: long-chain case did not finish within 120 s (possible endless loop in the library; reported as inconclusive)"));
+            }
+        }
     }
 }
